@@ -114,8 +114,8 @@ def trace_stats(path, c=None):
                     c["add_ceremony_ok"] += 1
             else:
                 c["add_rejected"] += 1
-                if "full" in r["err"] or "max size" in r["err"]:
-                    c["add_rejected_limits"] += 1
+                if r["valid"] and not (prev and r["tx"] in prev["all"]):
+                    c["add_rejected_limits"] += 1      # valid, not a duplicate: refused by a limit
         elif ev == "Build":
             if r["cand"]:
                 c["build_nonempty"] += 1
@@ -214,7 +214,8 @@ def _src_line(path, line):
 
 def classify_race(report):
     """Family of one race report: the pool's unsynchronised head field, the unsynchronised object caches of
-    the shared StateDB instances, or something else (signature of the two innermost repository frames)."""
+    the shared StateDB instances, the validators cache cloned by AppState.Readonly while a block commit refreshes it,
+    or something else (signature of the two innermost repository frames)."""
     report = report.replace("WARNING: DATA RACE\n", "")
     parts = [p for p in report.split("\n\n") if re.match(r"\s*(Read|Write|Previous read|Previous write|Atomic)", p.strip().split("\n")[0] if p.strip() else "")]
     stacks = [_frames(p.strip()) for p in parts[:2]]
@@ -231,10 +232,14 @@ def classify_race(report):
         for f in repo[:4]:
             if f[1].endswith(("core/state/statedb.go", "core/state/state_object.go")):
                 fam.add("statedb")
+            if f[1].endswith("core/validators/validators.go"):
+                fam.add("validators")
     if "head" in fam:
         return "C14:race:pool.head", inner
     if "statedb" in fam:
         return "C14:race:statedb-object-cache", inner
+    if "validators" in fam:
+        return "C14:race:validators-cache", inner
     return "C14:race:" + "|".join(sorted(inner)), inner
 
 
@@ -440,7 +445,7 @@ def main(ctx):
     }
     return vlib.finish(ctx, "model_checking", cov, assumptions=[
         "'invalid' is what the ledger's own ValidateTx says on the committed head (logged, not recomputed); validation sessions = periods short/long/after-long",
-        "the deferred channel's capacity (100, drop-oldest), tx-sync counters, TxLifetime and the tx keeper (persistence is off: Initialize(useTxKeeper=false)) are not exercised",
+        "the deferred channel's capacity (100, drop-oldest), the tx-sync counters and the tx keeper (persistence is off: Initialize(useTxKeeper=false)) are not exercised",
         "memory-level data races are decided by Go's race detector in the concurrent runs (operation-granularity interleavings by TLC)",
         "the -race build uses the portable sha3 (build tag appengine): checkptr rejects the repository's unaligned-load glue",
     ])
